@@ -11,6 +11,7 @@ theorem actAdds_not_answer (delayed : Bool) (t : Int) (seen : SeenMap) {a : Act}
   | idle _ => rfl
   | defer _ _ => rfl
   | ready _ => rfl
+  | remove _ _ => rfl
 
 /-- one block: the invariant is re-established at the block's time, with the histories extended by the block's `add`s -/
 theorem HInv.step {hO hD : List AddRec} {clock : Int} {h : Host} {e : Ev} {r : StepOut} {a : Act}
@@ -55,6 +56,17 @@ theorem HInv.step {hO hD : List AddRec} {clock : Int} {h : Host} {e : Ev} {r : S
     · obtain ⟨e1, e2, _⟩ := ht rfl
       simp only [if_true] at hdue
       exact ⟨by rw [e2]; exact hI.outQ.mono hc hdo, by rw [e1]; exact (hI.delayQ.ready hc hdue).1, hlis.1, hlis.2⟩
+  | remove d recs =>
+    obtain ⟨t, rfl⟩ := decide_remove hd
+    obtain ⟨_, hl, hf, ht⟩ := perform_remove hp
+    simp only [actAdds, List.append_nil, Ev.time] at hc ⊢
+    have hlis : DefOK r.host.lis t ∧ TimerInv r.host.lis := by
+      rw [hl]; exact ⟨hI.deferred.congr rfl hc, hI.timers⟩
+    cases d
+    · obtain ⟨e1, e2⟩ := hf rfl
+      exact ⟨by rw [e1]; exact hI.outQ.removeRecords hc hdo recs, by rw [e2]; exact hI.delayQ.mono hc hdd, hlis.1, hlis.2⟩
+    · obtain ⟨e1, e2⟩ := ht rfl
+      exact ⟨by rw [e2]; exact hI.outQ.mono hc hdo, by rw [e1]; exact hI.delayQ.removeRecords hc hdd recs, hlis.1, hlis.2⟩
   | answer lis pkts addr port =>
     obtain ⟨lis1, msg, h1, h2, rfl, rfl, hm⟩ := decide_answer hd
     obtain ⟨rest, hasm⟩ := perform_answer hp
